@@ -6,7 +6,8 @@
 (*   st  per time point, the stored effects (indices into the call table)      *)
 (*   sm  per time point, the simulated effect set there (0 = none)             *)
 (*   pr  probe answers <<candidate index, r>>: the candidate call tried on a   *)
-(*       copy of the container (may be <<>> when the step was not probed)      *)
+(*       copy of the container (may be <<>> when the step was not probed);     *)
+(*       candidates: the probe calls at the time points 1..nt of the trace     *)
 (* are compared with the primed state of both layers.  Verdicts are total: at  *)
 (* most one failure per class is remembered in `bad` and printed when the      *)
 (* trace is consumed.  Classes:                                                *)
@@ -32,7 +33,12 @@ ASSUME TableOK ==
 VARIABLES tid, l, bad
 tvars == <<vars, tid, l, bad>>
 
-ProbeIdx(cn) == {i \in 1..NU : Universe[i] \in ProbeSet /\ Supports(cn, Universe[i])}
+\* probe candidates of a container in a history that uses the time points 1..nt
+\* (TLCEval: tabulate once; lazily built functions are re-evaluated on every application)
+ProbeIdxTab == TLCEval([cn \in Containers |-> [n \in Tm |->
+                  {i \in 1..NU : Universe[i] \in ProbeSet /\ Supports(cn, Universe[i]) /\ Universe[i].t <= n}]])
+ProbeIdx(cn, n) == ProbeIdxTab[cn][n]
+ProbeCount == TLCEval([cn \in Containers |-> [n \in Tm |-> Cardinality(ProbeIdxTab[cn][n])]])
 
 Touch(c) == IF IsSim(c) THEN SimFl(c.s) ELSE {c.fl}
 \* P: a state of the layers as a record.  Feature of a set of mismatching calls: all of them touch
@@ -41,12 +47,12 @@ LeakedIn(P, t) == P.incdec[t] \ IncDecOf(P.eff[t])
 Feat(cs, P) == IF cs # {} /\ \A c \in cs : Touch(c) \cap LeakedIn(P, c.t) # {} THEN "leaked-incdec" ELSE "other"
 
 \* ---- shape of one observation record -------------------------------------------------
-ShapeOK(o, cn) ==
+ShapeOK(o, cn, n) ==
    /\ Len(o.st) = NT /\ Len(o.sm) = NT
    /\ \A t \in Tm : \A j \in DOMAIN o.st[t] : o.st[t][j] \in 0..NU    \* 0 = an effect that is not in the table
    /\ o.r \in {0, 1, 2}
-   /\ o.pr # <<>> => /\ Len(o.pr) = Cardinality(ProbeIdx(cn))
-                     /\ {o.pr[j][1] : j \in DOMAIN o.pr} = ProbeIdx(cn)
+   /\ o.pr # <<>> => /\ Len(o.pr) = ProbeCount[cn][n]
+                     /\ {o.pr[j][1] : j \in DOMAIN o.pr} = ProbeIdx(cn, n)
                      /\ \A j \in DOMAIN o.pr : o.pr[j][2] \in {0, 1, 2}
 StoredOps(ix) == [j \in DOMAIN ix |-> IF ix[j] = 0 THEN NoOp ELSE Universe[ix[j]]]
 
@@ -68,8 +74,8 @@ ClauseS(x, o, prev, Q, P) ==
    ELSE IF o.r # 0 /\ (o.st # prev.st \/ o.sm # prev.sm) THEN <<"S", "reject-unchanged", "stored-changed">>
    ELSE IF o.r # 0 /\ o.pr # <<>> /\ prev.pr # <<>> /\ o.pr # prev.pr
         THEN <<"S", "reject-unchanged", Feat(ChangedProbes(o, prev), P)>>
-   ELSE IF SpecProbeBad(o, P) # {} THEN <<"S", "spec-probe", Feat(SpecProbeBad(o, P), P)>>
-   ELSE <<>>
+   ELSE LET m == SpecProbeBad(o, P) IN
+        IF m # {} THEN <<"S", "spec-probe", Feat(m, P)>> ELSE <<>>
 
 \* ---- class I: conformance to the Impl layer -------------------------------------------
 ImplProbeBad(o, P) ==
@@ -93,16 +99,16 @@ ClauseO(tr) ==
 Has(b, cls) == \E j \in DOMAIN b : b[j][1] = cls
 AddBad(b, v, step) == IF v = <<>> \/ Has(b, v[1]) THEN b ELSE Append(b, <<v[1], v[2], step, v[3]>>)
 
-InitP == [eff |-> [t \in Tm |-> <<>>], assigned |-> [t \in Tm |-> [x \in Fl |-> NoVal]],
+InitP == TLCEval([eff |-> [t \in Tm |-> <<>>], assigned |-> [t \in Tm |-> [x \in Fl |-> NoVal]],
           incdec |-> [t \in Tm |-> {}], sim |-> [t \in Tm |-> 0],
           seff |-> [t \in Tm |-> <<>>], ssim |-> [t \in Tm |-> 0],
-          last |-> [op |-> NoOp, raised |-> FALSE, why |-> "none", spec |-> FALSE]]
+          last |-> [op |-> NoOp, raised |-> FALSE, why |-> "none", spec |-> FALSE]])
 NoRec == [r |-> 0, st |-> <<>>, sm |-> <<>>, pr |-> <<>>]
 
 \* the fresh container: nothing stored, no candidate is rejected
 InitBad(tr) ==
    LET o == [r |-> 0, st |-> tr.init.st, sm |-> tr.init.sm, pr |-> tr.init.pr] IN
-   IF ~ShapeOK(o, tr.c) THEN <<<<"M", "shape", 0, "other">>>>
+   IF tr.nt \notin Tm \/ ~ShapeOK(o, tr.c, tr.nt) THEN <<<<"M", "shape", 0, "other">>>>
    ELSE AddBad(AddBad(<<>>, ClauseS(NoOp, o, o, InitP, InitP), 0), ClauseI(NoOp, o, InitP), 0)
 
 TraceInit == /\ tid \in DOMAIN Traces /\ l = 1 /\ Init
@@ -120,7 +126,7 @@ TraceNext ==
          /\ bad' = LET P == [eff |-> eff', assigned |-> assigned', incdec |-> incdec', sim |-> sim',
                              seff |-> seff', ssim |-> ssim', last |-> last']
                    IN IF ~Supports(tr.c, x) THEN AddBad(bad, <<"M", "unsupported-call", "other">>, l)
-                      ELSE IF ~ShapeOK(o, tr.c) THEN AddBad(bad, <<"M", "shape", "other">>, l)
+                      ELSE IF ~ShapeOK(o, tr.c, tr.nt) \/ x.t > tr.nt THEN AddBad(bad, <<"M", "shape", "other">>, l)
                       ELSE LET b1 == AddBad(bad, ClauseS(x, o, prev, Q, P), l)
                                b2 == AddBad(b1, ClauseI(x, o, P), l)
                            IN IF l = Len(tr.ops) THEN AddBad(b2, ClauseO(tr), l) ELSE b2
